@@ -44,7 +44,7 @@ PROBES = ["invivo_pipeline_reads_checked", "invivo_restored_items_checked", "inv
           "restart_clean", "restart_unclean", "multi_bundle", "item_cache_evicted", "bundle_cache_evicted",
           "absent_read", "fault_write_enospc", "fault_write_torn", "fault_read_eio", "fault_reported",
           "read_after_fault_ok", "restart_after_fault", "dict_restore", "xprocess_restart", "numpy_integer_key", "two_failed_writes_in_one_op",
-          "invivo_history_run_ok", "invivo_history_ws_plain", "invivo_history_ws_symlink", "invivo_history_ws_symlink_parent"]
+          "invivo_history_run_ok", "invivo_history_ws_plain", "invivo_history_ws_symlink", "invivo_history_ws_symlink_parent", "invivo_history_ws_symlink_sub"]
 # the same check again, smaller, in interpreters started with assertions stripped (python -O / PYTHONOPTIMIZE=1)
 ENV_VARIANTS = [{"name": "python-O", "env": {"PYTHONOPTIMIZE": "1"}, "runs": {'quick': 900, 'thorough': 9000}}]
 TIERS = {
